@@ -84,14 +84,14 @@ def newWm (r : Reg) (hv : HV) : HV :=
   | none => hv
   | some w => if w.olderThan hv then hv else w
 
-private theorem cancel_eq (r : Reg) (hv : HV) :
+theorem cancel_eq (r : Reg) (hv : HV) :
     (step r (.cancelOlderThan hv)).1 =
       { r with live := r.live.filter (fun p => !p.1.olderThan hv),
                cancelled := (r.live.filter (fun p => p.1.olderThan hv)).map (·.2) ++ r.cancelled,
                watermark := some (newWm r hv) } := by
   unfold step newWm; cases r.watermark <;> simp <;> split <;> rfl
 
-private theorem stale_mono_cancel (r : Reg) (hv x : HV) (h : stale r x) :
+theorem stale_mono_cancel (r : Reg) (hv x : HV) (h : stale r x) :
     stale (step r (.cancelOlderThan hv)).1 x := by
   obtain ⟨w, hw, ho⟩ := h
   rw [cancel_eq]; refine ⟨newWm r hv, rfl, ?_⟩
@@ -100,7 +100,7 @@ private theorem stale_mono_cancel (r : Reg) (hv x : HV) (h : stale r x) :
   · simp only [c, if_true]; rw [olderThan_iff] at *; omega
   · simp only [c]; exact ho
 
-private theorem older_stale_cancel (r : Reg) (hv x : HV) (h : x.olderThan hv = true) :
+theorem older_stale_cancel (r : Reg) (hv x : HV) (h : x.olderThan hv = true) :
     stale (step r (.cancelOlderThan hv)).1 x := by
   rw [cancel_eq]; refine ⟨newWm r hv, rfl, ?_⟩
   unfold newWm
@@ -114,7 +114,7 @@ private theorem older_stale_cancel (r : Reg) (hv x : HV) (h : x.olderThan hv = t
       have c' : w.olderThan hv = false := by simpa using c
       rw [olderThan_false_iff] at c'; rw [olderThan_iff] at *; omega
 
-private theorem stale_cancel_cases (r : Reg) (hv x : HV)
+theorem stale_cancel_cases (r : Reg) (hv x : HV)
     (h : stale (step r (.cancelOlderThan hv)).1 x) : stale r x ∨ x.olderThan hv = true := by
   rw [cancel_eq] at h
   obtain ⟨w, hw, ho⟩ := h
